@@ -591,6 +591,20 @@ class Emitter:
                 return [mk(v)]
             if isinstance(env[it.id][1], Phi):
                 return build(env[it.id][1])
+        # `for x in A + B` writes the rows of A, then those of B (each part gets its own copy of the body: its values are
+        # classified in the context of that part)
+        parts = concat_parts(it, env)
+        if len(parts) > 1:
+            out = []
+            for k_, p_ in enumerate(parts):
+                r = Rep(target, p_, ifs, body if k_ == 0 else copy_items(body), sep, node)
+                r.partial = partial
+                r.src_iter = it
+                r.part = (k_, len(parts))
+                out.append(r)
+                if sep and k_ < len(parts) - 1:
+                    out.append(Lit(sep))
+            return out
         return [mk(it)]
 
     def unmark(self, items, before, inner, own):
@@ -612,6 +626,46 @@ class Emitter:
             else:
                 out.append(x)
         return out
+
+
+def concat_parts(it, env, depth=0):
+    """the operands of `A + B + ..` (through list(..) / tuple(..) and locals holding such a sum)"""
+    if depth > 4:
+        return [it]
+    if isinstance(it, ast.BinOp) and isinstance(it.op, ast.Add):
+        return concat_parts(it.left, env, depth + 1) + concat_parts(it.right, env, depth + 1)
+    if isinstance(it, ast.Call) and isinstance(it.func, ast.Name) and it.func.id in ("list", "tuple") and len(it.args) == 1 and not it.keywords \
+            and isinstance(it.args[0], ast.BinOp):
+        return concat_parts(it.args[0], env, depth + 1)
+    if isinstance(it, ast.Call) and au.call_tail(it) == "chain" and len(it.args) >= 2 and not it.keywords:
+        return [p_ for a in it.args for p_ in concat_parts(a, env, depth + 1)]
+    if isinstance(it, ast.Name) and it.id in env and env[it.id][0] == "val" and isinstance(env[it.id][1], ast.BinOp) \
+            and isinstance(env[it.id][1].op, ast.Add):
+        return concat_parts(env[it.id][1], env, depth + 1)
+    return [it]
+
+
+def copy_items(items):
+    """copy of a piece of emission tree with fresh Leaf objects (same expressions)"""
+    out = []
+    for x in items:
+        if isinstance(x, Lf):
+            l = x.leaf
+            out.append(Lf(cc.Leaf(l.expr, l.spec, l.conv, l.how, l.node)))
+        elif isinstance(x, Rep):
+            r = Rep(x.target, x.iter, x.ifs, copy_items(x.body), x.sep, x.node)
+            r.partial = x.partial
+            for a in ("src_iter", "src_list", "extra_ifs", "ids_iter"):
+                if hasattr(x, a):
+                    setattr(r, a, getattr(x, a))
+            out.append(r)
+        elif isinstance(x, Alt):
+            out.append(Alt(x.test, copy_items(x.a), copy_items(x.b), x.node))
+        elif isinstance(x, El):
+            out.append(El(copy_items(x.items)))
+        else:
+            out.append(x)
+    return out
 
 
 def _has_break(loop):
@@ -831,6 +885,7 @@ def row_iteration(rep, prov, b):
             it = it.args[0]
     k = prov.container_kind(it)
     if k is not None:
+        rep.corner = k in cc.CORNER_KINDS
         return cc.CORNER_KINDS.get(k, k), "loop"
     info = prov.rows_info(it, rep.node if au.parent(it) is None else it)
     if info is not None:
@@ -854,6 +909,13 @@ def row_iteration(rep, prov, b):
                     rng = isinstance(it, ast.Call) and au.call_tail(it) == "range"
                     return prov.container_kind(x.value), "range" if rng else "index"
     return None
+
+
+def leaf_class(prov, lf):
+    """classification of a rendered value, as computed in the context of the row block it belongs to"""
+    if hasattr(lf, "cls"):
+        return lf.cls
+    return prov.classify(lf.expr, lf.expr)
 
 
 def row_blocks(fmt, fn, tree=None, prov=None, b=None):
@@ -918,7 +980,13 @@ def make_block(fmt, fn, prov, b, rep, kind, via, path, conds, flat, before):
             blk.other_guards.append((t, pol))
     blk.conds_row = list(conds)
     blk.lines = tokenize(flat)
-    _classify_tokens(blk)
+    prov.context[id(rep.node)] = (kind, getattr(rep, 'corner', False))
+    try:
+        _classify_tokens(blk)
+        for lf in leaves_of(flat):
+            lf.cls = prov.classify(lf.expr, lf.expr)
+    finally:
+        prov.context.pop(id(rep.node), None)
     lv = leaves_of(flat)
     blk.write = lv[0].node if lv else rep.node
     return blk
